@@ -1,32 +1,53 @@
 (* Corr/C09.v -- correspondence and spec verdict for C09, evaluated by vm_compute on the cases
    the harness observed on the implementation (AggregatePlan, node level and statement level).
 
-   A case carries the plan (fields, limit), the oracle values of every scanned pair, the sizes
+   A [Case] carries the plan (fields, limit), the oracle values of every scanned pair, the sizes
    of the child's batches, and the rows the implementation returned in row mode and in batch
-   mode.  Codes:
+   mode.  An [LCase] carries, instead of values, the OUTCOME of every evaluation on every pair
+   (a value, or "fails"): the twin then decides with the evaluation discipline of
+   Model/AggregateLazy.v which of them the plan asks for (a failing evaluation it does not ask for
+   is harmless, one it asks for fails the statement).  Both kinds are run through the LAZY twin
+   ([lrun_row] / [lrun_batch]: rows are completed as Next / Batch ask for them).  Codes:
      0  twin = implementation and the implementation's rows satisfy the specification
      1  twin <> implementation (correspondence broken)
      2  the implementation's rows are not one row per distinct GROUP BY tuple in first-occurrence
         order showing that tuple's values (number of rows / non-aggregate columns differ)
      3  an aggregate column differs from its definition over the group's pairs
      4  the statement fails where the specification defines a result, or succeeds where the
-        specification fails (x / 0)
+        specification fails (x / 0).  Row mode is judged against Spec/GroupLazy.v
+        [spec_result_lazy] exactly (it fails iff one of the first start + count groups is
+        undefined); batch mode completes whole runs of PlanBatchSize groups, so there: rows must be
+        the rows of [spec_result_lazy], and an error needs an undefined group somewhere
+        ([spec_result] fails).
    The specification side (Spec/Group.v) partitions by equality of the TYPED values (text as
    bytes, integers, floats by their bits, booleans); the twin by the rendered group key. *)
 From Coq Require Import List String ZArith Bool Arith Floats.
-From KV Require Import Base.Bytes Spec.Group Model.Aggregate Model.AggregateFloat.
+From KV Require Import Base.Bytes Model.Value Model.AggregateLazy.
+(* after Model.Value: value, VBytes, f_of_Z, ... below are Spec/Group.v's and Model/AggregateFloat.v's *)
+From KV Require Import Spec.Group Spec.GroupLazy Model.Aggregate Model.AggregateFloat.
 Import ListNotations.
 
 Definition rows := list (list fvalue).
 
-Record case := Case {
-  c_plan : fplan;
-  c_B : nat;                              (* PlanBatchSize *)
-  c_chunks : list nat;                    (* sizes of the child's batches (batch mode) *)
-  c_pairs : list fpobs;                   (* scanned pairs that passed WHERE, in scan order *)
-  c_obs_row : option (option rows);       (* None: mode not run; Some None: execution error *)
-  c_obs_batch : option (option rows)
+(* what the harness recorded for one scanned pair of an [LCase]: per GROUP BY expression, per
+   non-aggregate field, per aggregate argument the value, or None where the evaluation fails *)
+Record lpobs := LPObs {
+  l_g : list (option fvalue);
+  l_k : list (option fvalue);
+  l_a : list (option fvalue)
 }.
+
+Inductive case :=
+  | Case (c_plan : fplan)
+         (c_B : nat)                              (* PlanBatchSize *)
+         (c_chunks : list nat)                    (* sizes of the child's batches (batch mode) *)
+         (c_pairs : list fpobs)                   (* scanned pairs that passed WHERE, in scan order *)
+         (c_obs_row : option (option (list (list fvalue))))    (* None: mode not run; Some None: execution error *)
+         (c_obs_batch : option (option (list (list fvalue))))
+  | LCase (c_plan : fplan) (c_B : nat) (c_chunks : list nat)
+          (c_lpairs : list lpobs)                 (* outcome of every evaluation on every scanned pair *)
+          (c_obs_row : option (option (list (list fvalue))))
+          (c_obs_batch : option (option (list (list fvalue)))).
 
 (* observable equality of values: string and []byte are identified, floats by their bits *)
 Definition val_eqb (a b : fvalue) : bool := value_eqb f_same a b.
@@ -50,19 +71,39 @@ Fixpoint key_cols (fs : list (field float)) (r : list fvalue) : list fvalue :=
   | _, _ => []
   end.
 
-Definition verdict (p : fplan) (obs : option rows) (sp : option rows) : nat :=
-  match obs, sp with
+Definition lspec64 (p : fplan) (pairs : list fpobs) : option rows :=
+  @spec_result_lazy float PrimFloat.add PrimFloat.sub PrimFloat.mul PrimFloat.div f_ltb f_is0 f_of_Z f_to_Z
+                    f_fmt f_json f_parse parse_int f_json_s val_eqb p pairs.
+
+(* the lazy twin on binary64 *)
+Definition opt_of {A} (r : res A) : option A := match r with Ok a => Some a | _ => None end.
+Definition lrun_row64 (p : fplan) (pairs : list fpobs) : option rows :=
+  opt_of (@lrun_row float PrimFloat.add PrimFloat.sub PrimFloat.mul PrimFloat.div f_ltb f_is0 f_of_Z f_to_Z
+                    f_fmt f_bits f_json f_parse f_json_s p pairs).
+Definition lrun_batch64 (p : fplan) (B : nat) (chunks : list (list fpobs)) : option rows :=
+  opt_of (@lrun_batch float PrimFloat.add PrimFloat.sub PrimFloat.mul PrimFloat.div f_ltb f_is0 f_of_Z f_to_Z
+                      f_fmt f_bits f_json f_parse f_json_s p B chunks).
+
+Definition rows_verdict (p : fplan) (o s : rows) : nat :=
+  if rows_eqb o s then 0
+  else if Nat.eqb (List.length o) (List.length s)
+          && rows_eqb (map (key_cols (pl_fields p)) o) (map (key_cols (pl_fields p)) s)
+       then 3 else 2.
+
+(* row mode: exactly the lazy reference result *)
+Definition verdict_row (p : fplan) (obs lsp : option rows) : nat :=
+  match obs, lsp with
   | None, None => 0
   | None, Some _ => 4
-  | Some _, None =>
-      (* a failing group (x / 0): Go completes the rows lazily, so with LIMIT the failing row
-         need not be reached; without LIMIT the error must surface *)
-      match pl_limit p with Some _ => 0 | None => 4 end
-  | Some o, Some s =>
-      if rows_eqb o s then 0
-      else if Nat.eqb (List.length o) (List.length s)
-              && rows_eqb (map (key_cols (pl_fields p)) o) (map (key_cols (pl_fields p)) s)
-           then 3 else 2
+  | Some _, None => 4
+  | Some o, Some s => rows_verdict p o s
+  end.
+
+(* batch mode: rows must be the lazy reference rows; an error needs an undefined group *)
+Definition verdict_batch (p : fplan) (obs lsp sp : option rows) : nat :=
+  match obs with
+  | Some o => match lsp with Some s => rows_verdict p o s | None => 4 end
+  | None => match sp with None => 0 | Some _ => 4 end
   end.
 
 Definition same_outcome (a b : option rows) : bool :=
@@ -72,25 +113,88 @@ Definition same_outcome (a b : option rows) : bool :=
   | _, _ => false
   end.
 
-Definition check1 (p : fplan) (obs : option (option rows)) (model sp : option rows) : nat :=
+Definition check1 (v : nat) (obs : option (option rows)) (model : option rows) : nat :=
   match obs with
   | None => 0
-  | Some o =>
-      match verdict p o sp with
-      | 0 => match sp, o with
-             | None, Some _ => 0
-             | _, _ => if same_outcome model o then 0 else 1
-             end
-      | k => k
-      end
+  | Some o => match v with
+              | 0 => if same_outcome model o then 0 else 1
+              | k => k
+              end
   end.
 
-Definition check_case (c : case) : nat :=
-  let sp := spec64 (c_plan c) (c_pairs c) in
+Definition check_full (p : fplan) (B : nat) (chunks : list nat) (pairs : list fpobs)
+           (orow obatch : option (option rows)) : nat :=
+  let sp := spec64 p pairs in
+  let lsp := lspec64 p pairs in
   Nat.max
-    (check1 (c_plan c) (c_obs_row c) (run_row64 true true (c_plan c) (c_pairs c)) sp)
-    (check1 (c_plan c) (c_obs_batch c)
-            (run_batch64 true true (c_plan c) (c_B c) (split_sizes (c_chunks c) (c_pairs c))) sp).
+    (check1 (match orow with Some o => verdict_row p o lsp | None => 0 end) orow (lrun_row64 p pairs))
+    (check1 (match obatch with Some o => verdict_batch p o lsp sp | None => 0 end) obatch
+            (lrun_batch64 p B (split_sizes chunks pairs))).
+
+(* ---------------------------------------------------------------- recorded outcomes, lazily *)
+Definition res_of {A} (o : option A) : res A := match o with Some a => Ok a | None => Err EOther end.
+
+Definition le_g (o : lpobs) : res (list fvalue) := res_of (seq_opt (l_g o)).
+Definition le_k (o : lpobs) : res (list fvalue) := res_of (seq_opt (l_k o)).
+Fixpoint need_from (need : nat -> bool) (i : nat) (a : list (option fvalue)) : res (list fvalue) :=
+  match a with
+  | [] => Ok []
+  | x :: a' =>
+      if need i then
+        match x with
+        | Some v => do vs <- need_from need (S i) a'; Ok (v :: vs)
+        | None => Err EOther
+        end
+      else do vs <- need_from need (S i) a'; Ok (VNil :: vs)
+  end.
+Definition le_a (need : nat -> bool) (o : lpobs) : res (list fvalue) := need_from need 0 (l_a o).
+Fixpoint le_batch_g (ch : list lpobs) : res (list (list fvalue)) :=
+  match ch with
+  | [] => Ok []
+  | o :: ch' => do g <- le_g o; do gs <- le_batch_g ch'; Ok (g :: gs)
+  end.
+
+(* prepare's evaluations on all pairs / prepareBatch's on the child's chunks *)
+Definition force_row (p : fplan) (lp : list lpobs) : res (list fpobs) :=
+  do r <- smap_res (lobs_row f_fmt f_bits le_g le_k le_a p) [] lp; Ok (fst r).
+Fixpoint force_chunks (p : fplan) (t : seen) (chunks : list (list lpobs)) : res (list (list fpobs)) :=
+  match chunks with
+  | [] => Ok []
+  | ch :: chunks' =>
+      do r <- lobs_batch f_fmt f_bits le_batch_g le_k le_a p t ch;
+      do rest <- force_chunks p (snd r) chunks';
+      Ok (fst r :: rest)
+  end.
+
+Definition check_lazy (p : fplan) (B : nat) (chunks : list nat) (lp : list lpobs)
+           (orow obatch : option (option rows)) : nat :=
+  let cr :=
+    match orow with
+    | None => 0
+    | Some o =>
+        match force_row p lp with
+        | Ok pairs => check1 (verdict_row p o (lspec64 p pairs)) orow (lrun_row64 p pairs)
+        | _ => match o with None => 0 | Some _ => 1 end     (* an evaluation the plan asks for fails *)
+        end
+    end in
+  let cb :=
+    match obatch with
+    | None => 0
+    | Some o =>
+        match force_chunks p [] (split_sizes chunks lp) with
+        | Ok cs =>
+            let pairs := List.concat cs in
+            check1 (verdict_batch p o (lspec64 p pairs) (spec64 p pairs)) obatch (lrun_batch64 p B cs)
+        | _ => match o with None => 0 | Some _ => 1 end
+        end
+    end in
+  Nat.max cr cb.
+
+Definition check_case (c : case) : nat :=
+  match c with
+  | Case p B chunks pairs orow obatch => check_full p B chunks pairs orow obatch
+  | LCase p B chunks lp orow obatch => check_lazy p B chunks lp orow obatch
+  end.
 
 Fixpoint mism_from (i : nat) (cs : list case) : list (nat * nat) :=
   match cs with
@@ -111,6 +215,9 @@ Definition vT : fvalue := VBool true.
 Definition vX : fvalue := VBool false.
 Definition vN : fvalue := VNil.
 Definition mkO (g k a : list fvalue) : fpobs := PObs g k a.
+Definition mkL (g k a : list (option fvalue)) : lpobs := LPObs g k a.
+Definition ok (v : fvalue) : option fvalue := Some v.
+Definition er : option fvalue := None.
 Definition fK (k : nat) : field float := FKey k.
 Definition fA (e : aexpr float) (calls : list call) : field float := FAgg e calls.
 Definition eC (i : nat) : aexpr float := AECall i.
